@@ -9,9 +9,13 @@ use num_traits::{FromPrimitive, Num, One, Signed, Zero};
 use std::cell::{Cell, RefCell};
 use std::ops::{Add, Div, Mul, Neg, Rem, Sub};
 
-pub const TAG_CONST: u8 = 0;
-pub const TAG_DATA: u8 = 1;
-pub const TAG_POISON: u8 = 2;
+/// 0 is deliberately NOT a valid tag: a value whose bytes are all zero was not produced by any operation of the type
+/// (`zero()`, `from_*`, arithmetic) but fabricated from raw memory (memset, `mem::zeroed`, a transmute). The type's zero
+/// is therefore not the all-zero bit pattern, as for any representation with a non-trivial invariant.
+pub const TAG_RAW: u8 = 0;
+pub const TAG_CONST: u8 = 1;
+pub const TAG_DATA: u8 = 2;
+pub const TAG_POISON: u8 = 3;
 
 pub const FLAG_NONLINEAR: u32 = 1; // data * data
 pub const FLAG_UNKNOWN_CONST: u32 = 2; // from_f64 of a constant we cannot map exactly
@@ -19,6 +23,7 @@ pub const FLAG_BINDING: u32 = 4; // float twiddle handed over does not match (in
 pub const FLAG_NONRING: u32 = 8; // abs/signum/is_positive/is_negative/rem/is_zero-on-data/compare
 pub const FLAG_DIV_DATA: u32 = 16; // division by a data-dependent value
 pub const FLAG_BAD_LEN: u32 = 32; // twiddle length does not divide M (collect pass missed it)
+pub const FLAG_RAW_BYTES: u32 = 128; // an operand was never constructed by the type (all-zero bytes: memset / zeroed / transmute)
 pub const FLAG_RATIONAL_CONST: u32 = 64; // a non-dyadic rational (e.g. 1/36) was routed through f64: an exact type cannot reproduce it
 
 #[derive(Copy, Clone, Debug)]
@@ -75,6 +80,7 @@ pub fn flag_names(f: u32) -> String {
         (FLAG_DIV_DATA, "division-by-data"),
         (FLAG_BAD_LEN, "twiddle-length-not-collected"),
         (FLAG_RATIONAL_CONST, "rational-constant-rounded-through-f64"),
+        (FLAG_RAW_BYTES, "value-fabricated-from-raw-bytes"),
     ] {
         if f & b != 0 {
             v.push(n);
@@ -198,6 +204,10 @@ impl Fp {
 }
 #[inline]
 fn tag_lin(a: u8, b: u8) -> u8 {
+    if a == TAG_RAW || b == TAG_RAW {
+        flag(FLAG_RAW_BYTES);
+        return TAG_POISON;
+    }
     a.max(b)
 }
 impl Add for Fp {
@@ -228,7 +238,7 @@ impl Neg for Fp {
     #[inline]
     fn neg(self) -> Fp {
         let pp = p();
-        Fp { v: if self.v == 0 { 0 } else { pp - self.v }, tag: self.tag }
+        Fp { v: if self.v == 0 { 0 } else { pp - self.v }, tag: tag_lin(self.tag, TAG_CONST) }
     }
 }
 impl Mul for Fp {
